@@ -6,16 +6,17 @@ CHECK = {
     "packages": ["./actor"],
     "harness": ["actor/zz_verif_c18.go"],
     "entries": [
-        dict(MO, fn=P + "vC18_local", cases={"message": [0, 1, 2, 3, 4, 5, 6], "cause": [0, 1, 2]}),
+        dict(MO, fn=P + "vC18_local", cases={"message": [0, 1, 2, 3, 4, 5, 6, 7, 8], "cause": [0, 1, 2]}),
         dict(MO, fn=P + "vC18_actor", tiers=("quick",)),
         dict(MO, fn=P + "vC18_actor5", tiers=("thorough",)),
         dict(MO, fn=P + "vC18_remote", cases={"state": [0, 1, 2], "hasSender": [0, 1]}),
+        dict(MO, fn=P + "vC18_remoteLeaving", cases={"hasSender": [0, 1]}),
         dict(MO, fn=P + "vC18_batch", cases={"n": [0, 1, 2, 3], "firstHasSender": [0, 1]}),
     ],
     "replace": [{"file": "actor/pools.go", "old": "const contextPoolSize = 8192", "new": "const contextPoolSize = 2"}],
     "opts": {"unwind": 8, "substitute": SUB, "go_inline": True, "select_precise": True, "birth_guard_stores": True, "equalfold_ascii": True, "batch_fresh": True},
     "stop": list(SUB.keys()),
-    "explanation": "Executed symbolically: PID.doReceive (mailbox-refused arm and system-shutting-down arm) with the real NonBlockingBoundedMailbox(2) holding 0..2 earlier messages, PID.handleReceivedError(WithMessage), toDeadletter, ReceiveContext.Unhandled; the dead-letter actor deadLetter.Receive/handlePostStart/handleDeadletter/count for 3 letters to 2 receivers; actorSystem.deliverRemoteTellMessage for a receiver that is unknown / known but stopped / running (with newRemoteSenderPID, address.Parse, handleRemoteTell, resolveDispatch, deadLetterRemoteMessage); enqueueCoalescedFailure + drainCoalescedFailures for a failed batch of n remote tells. A real actorSystem value (logger, tree, NoSender, dead-letter and system-guardian PIDs, sender-address cache, shuttingDown flag, failure queue) is used. Asserted: a dropped non-exempt message yields exactly one SendDeadletter told to the dead-letter actor carrying the original message, sender (NoSender's address when nil/NoSender), receiver and reason, and the message is neither enqueued nor does it schedule the actor; exempt messages (PostStart, Terminated, SendDeadletter) never become letters; accepted messages are queued exactly once (control messages in the system mailbox), schedule the actor once and produce no letter; handleDeadletter publishes each letter once with the original fields and bumps the total and the receiver's counter by one, count returns them; a failed batch of n messages yields n letters in order with the right message/receiver/sender/cause. Substituted: (*PID).Tell and (*dispatcher).schedule by recorders; the remoting client by a fake whose serializer maps one byte to one of 4 ghost messages.",
-    "bounds": {'local': 'message kind (7, case split) x drop cause (3, case split) x sender {nil, NoSender, actor} x 0..2 queued messages (symbolic)', 'dead-letter actor': '3 letters (thorough: 5), 2 receivers (symbolic choice)', 'remote': 'receiver state {unknown, stopped, running} x sender present/absent (case split) x 4 payloads (symbolic)', 'batch': 'n = 0..3 messages, alternating receivers/senders', 'shrunk constant': 'contextPoolSize 8192 -> 2'},
+    "explanation": "Executed symbolically: PID.doReceive (mailbox-refused arm and system-shutting-down arm) with the real NonBlockingBoundedMailbox(2) holding 0..2 earlier messages, PID.handleReceivedError(WithMessage), toDeadletter, ReceiveContext.Unhandled; the dead-letter actor deadLetter.Receive/handlePostStart/handleDeadletter/count for 3 letters to 2 receivers; actorSystem.deliverRemoteTellMessage for a receiver that is unknown / known but stopped / known and flagged running but stopping, passivating or suspended / running (with newRemoteSenderPID, address.Parse, handleRemoteTell, resolveDispatch, deadLetterRemoteMessage); enqueueCoalescedFailure + drainCoalescedFailures for a failed batch of n remote tells. A real actorSystem value (logger, tree, NoSender, dead-letter and system-guardian PIDs, sender-address cache, shuttingDown flag, failure queue) is used. Asserted: a dropped non-exempt message yields exactly one SendDeadletter told to the dead-letter actor carrying the original message, sender (NoSender's address when nil/NoSender), receiver and reason, and the message is neither enqueued nor does it schedule the actor; exempt messages (PostStart, Terminated, SendDeadletter) never become letters; accepted messages are queued exactly once (control messages in the system mailbox), schedule the actor once and produce no letter; handleDeadletter publishes each letter once with the original fields and bumps the total and the receiver's counter by one, count returns them; a failed batch of n messages yields n letters in order with the right message/receiver/sender/cause. Substituted: (*PID).Tell and (*dispatcher).schedule by recorders; the remoting client by a fake whose serializer maps one byte to one of 4 ghost messages.",
+    "bounds": {'local': 'message kind (9, case split: user message, PostStart, Terminated, SendDeadletter, PoisonPill, PausePassivation, AsyncRequest, PanicSignal, AsyncResponse) x drop cause (3, case split) x sender {nil, NoSender, actor} x 0..2 queued messages (symbolic)', 'dead-letter actor': '3 letters (thorough: 5), 2 receivers (symbolic choice)', 'remote': 'receiver state {unknown, stopped, running, still flagged running but stopping/passivating/suspended (any combination)} x sender present/absent (case split) x 4 payloads (symbolic)', 'batch': 'n = 0..3 messages, alternating receivers/senders', 'shrunk constant': 'contextPoolSize 8192 -> 2'},
     "assumptions": ["wire strings (receiver, sender) are concrete canonical addresses: parsing arbitrary strings is C26's subject", 'reasons built with fmt.Errorf / errors.Join are opaque strings in the model and are not compared (the sentinel reasons ErrMailboxFull/ErrUnhandled/ErrSystemShuttingDown/ErrRemoteSendFailure are)', 'payload deserialization succeeds (a payload that cannot be decoded is logged and skipped by the code; outside the claim)', 'concurrent traffic is outside: the counters are atomic increments; the drain goroutine runs inline after the queue is closed'],
 }
